@@ -1,0 +1,46 @@
+//go:build verif
+
+// Contracts for the deductive checker in /verif (govc). Comment-only; ignored without the
+// "verif" build tag.
+//
+// Ghost view of a multistore commit: subs.cur is the version every mounted substore has saved,
+// wb.latest / wb.cinfo the version the open batch will publish as s/latest and s/<v>,
+// disk.latest / disk.cinfo what is durable. The batch and database contracts are in
+// /verif/spec/extern/tmdb.go.txt.
+
+package rootmulti
+
+//@ ghost subs.cur Int
+//@ ghost wb.latest Int
+//@ ghost wb.cinfo Int
+//@ ghost disk.latest Int
+//@ ghost disk.cinfo (Array Int Bool)
+
+// ASSUMED (range over a Go map is outside the subset): every substore's Commit is called once.
+//@ assumed func commitStores(version int64, storeMap map[types.StoreKey]types.CommitStore) (ci commitInfo)
+//@   modifies subs.cur
+//@   ensures subs.cur == version && ci.Version == version
+
+// ASSUMED (amino encoding is outside the subset): the batch now carries s/<version> resp. s/latest = version.
+//@ assumed func setCommitInfo(batch dbm.Batch, version int64, cInfo commitInfo)
+//@   modifies wb.cinfo
+//@   ensures wb.cinfo == version
+//@ assumed func setLatestVersion(batch dbm.Batch, version int64)
+//@   modifies wb.latest
+//@   ensures wb.latest == version
+
+//@ assumed func (ci commitInfo) Hash() (h []byte)
+//@   ensures true
+
+// C12: Commit advances the version by exactly one, in memory and on disk, and the commit info of the
+// new version is durable. C13: the flush that publishes the version happens after the substores have
+// saved it and carries marker and commit info together (preconditions of Batch.Write).
+//@ func (rs *Store) Commit() (id types.CommitID)
+//@   props C12 C13
+//@   requires rs.lastCommitID.Version >= 0 && rs.lastCommitID.Version < 9223372036854775807
+//@   requires disk.latest == rs.lastCommitID.Version && ifacenotnil(rs.DB)
+//@   modifies subs.cur, wb.latest, wb.cinfo, disk.latest, disk.cinfo, rs.lastCommitID
+//@   ensures [version] id.Version == old(rs.lastCommitID.Version) + 1
+//@   ensures [memory] rs.lastCommitID.Version == id.Version
+//@   ensures [durable] disk.latest == id.Version && disk.cinfo[id.Version] && subs.cur == id.Version
+//@   ensures [onlynew] forall v int :: v != id.Version ==> disk.cinfo[v] == old(disk.cinfo[v])
